@@ -76,6 +76,19 @@ def handleDescent : Handler := fun toks =>
         some (showInts (r.1.toList.flatMap (fun r => r.toList.map (·.idx))) ++ " | " ++
               showFs (r.1.toList.flatMap (fun r => r.toList.map (·.prio))) ++ " | " ++
               toString r.2.s0.toInt ++ " " ++ toString r.2.s1.toInt ++ " " ++ toString r.2.s2.toInt)
+  -- blocks n k T blockSize w | dist | new candidates (n rows, width w) | old candidates | prio | idx | flag
+  --   `process_candidates` (low-memory local join over vertex blocks of the given size) → `c | graph`
+  | [["blocks", n, k, t, bs, w], dist, nc, oc, ps, is, fs] =>
+    let n' := pNat n
+    if !allNats [n, k, t, bs, w] || pNat bs = 0 || dist.length ≠ n' * n' || !allInts dist then some "bad-op" else
+    match parseGraph n' (pNat k) ps is fs, parseRows (pNat w) nc, parseRows (pNat w) oc with
+    | some g, some newC, some oldC =>
+      if newC.length ≠ n' || oldC.length ≠ n' then some "bad-op" else
+      let tab := (dist.map pF).toArray
+      let cfg : Cfg := { k := pNat k, maxCand := pNat w, nIters := 0, nThreads := pNat t, lowMemory := true, blockSize := pNat bs }
+      let r := processBlocks finf (distTable n' tab) cfg g newC oldC #[]
+      some (toString r.1.2 ++ " | " ++ showGraph r.1.1)
+    | _, _, _ => some "bad-op"
   -- initidx n k w | dist | index rows (width w)            initalize_heap_from_graph_indices
   | [["initidx", n, k, w], dist, rows] =>
     let n' := pNat n
